@@ -101,7 +101,9 @@ func runHazard(r *runner, sc Scenario, wg *sync.WaitGroup) {
 			close(r.closeRet)
 		}()
 	case "close2":
-		// TLC (Proto_hz_close2.cfg): the second Close reaches close(closeCh) on a closed channel.
+		// Regression detector for repair fb2d875. TLC (Proto_hz_close2.cfg, OLD Close): the second Close
+		// reaches close(closeCh) on a closed channel. Repaired code: the second Close returns the
+		// closed-index error.
 		wg.Add(1)
 		go func() {
 			defer wg.Done()
@@ -112,19 +114,33 @@ func runHazard(r *runner, sc Scenario, wg *sync.WaitGroup) {
 			close(r.closeRet)
 		}()
 	case "fmmem":
-		// TLC (Proto_hz_fmmem.cfg): ForceMerge on an engine without merger loop put its request in
-		// the buffered channel and waits for doneCh / closeCh; cancelling its context changes nothing.
+		// Regression detector for repair 916db13. TLC (Proto_hz_fmmem.cfg, OLD ForceMerge): on an engine
+		// without merger loop the request sits in the buffered channel and the caller waits for
+		// doneCh / closeCh; cancelling its context changes nothing. Repaired code: an error at once.
 		wg.Add(1)
 		go func() {
 			defer wg.Done()
 			ctx, cancel := context.WithCancel(context.Background())
+			returned := make(chan struct{})
 			go func() {
-				waitBlocked("select", 5*time.Minute, "(*Scorch).ForceMerge")
-				cancel()
-				r.arm()
+				// either the call is seen blocked in its select (old behaviour) or it returns
+				for {
+					select {
+					case <-returned:
+						r.arm()
+						return
+					default:
+					}
+					if waitBlocked("select", 50*time.Millisecond, "(*Scorch).ForceMerge") {
+						cancel()
+						r.arm()
+						return
+					}
+				}
 			}()
 			adv := r.adv
 			r.call(0, "forcemerge", 1, 0, func() error { return adv.ForceMerge(ctx, nil) })
+			close(returned)
 			cancel()
 			r.call(0, "close", 0, 0, idx.Close)
 			close(r.closeRet)
